@@ -18,7 +18,7 @@ func init() {
 		ID: "C03",
 		Explanation: "Three structural clauses of the slice/map helpers, decided on SSA for all inputs: (R1) every slice or index expression whose bound depends on an integer parameter (or is a constant index into a parameter) satisfies 0 <= lo <= hi <= len(s) under the comparisons that dominate it (difference-bound reasoning over the parameters, len() terms and constants) - len, not cap, because slicing past len returns elements that are not part of the input; " +
 			"(R2) loops whose step or group size comes from a parameter are dominated by step > 0 (termination); (R3) no helper writes memory reachable from its slice/map arguments (interprocedural write-effect analysis; append into spare capacity counts as a write). " +
-			"(R4) every integer division or remainder has a divisor proven non-zero under its dominating guards; (R5) an input map is never read with a plain index expression for a key that may be absent (missing key vs stored zero value). R4/R5 expect zero instances on the library and self-test their matcher on an embedded snippet on every run. Not decided: that each helper returns the value of its documented definition (value-level equality over all inputs), and indices that depend only on loop counters (listed in the evidence as counter-indexed, not claimed). (R8) no in-band zero sentinel: an equality comparison between an input element and a loop-carried variable that mixes the zero value of its type with input elements (`var last T … if v == last`) is reached only behind a condition inside the loop - otherwise an input whose first element is the zero value is treated as a repetition (zero instances on the library; the matcher is self-tested on an embedded snippet on every run). (R6) Drop/DropLast/Take/TakeLast return on every feasible path the window of the input prescribed for the region of count the path lies in (linear forms over a difference-bound domain).",
+			"(R4) every integer division or remainder has a divisor proven non-zero under its dominating guards; (R5) an input map is never read with a plain index expression for a key that may be absent (missing key vs stored zero value). R4/R5 expect zero instances on the library and self-test their matcher on an embedded snippet on every run. Not decided: that each helper returns the value of its documented definition (value-level equality over all inputs), and indices that depend only on loop counters (listed in the evidence as counter-indexed, not claimed). (R8) no in-band zero sentinel: an equality comparison between an input element and a loop-carried variable that mixes the zero value of its type with input elements (`var last T … if v == last`) is reached only behind a condition inside the loop - otherwise an input whose first element is the zero value is treated as a repetition (zero instances on the library; the matcher is self-tested on an embedded snippet on every run). (R9) every listed helper with a slice or map result, except the documented windows Drop/DropLast/Take/TakeLast/Tail (table c03views, one reason each), returns on every path storage that is not shared with an argument (result-freshness summaries of the write-effect analysis; an append that may add nothing is its first argument): a caller that writes into or sorts the result cannot change an input. (R6) Drop/DropLast/Take/TakeLast return on every feasible path the window of the input prescribed for the region of count the path lies in (linear forms over a difference-bound domain).",
 		Trusted: append([]string{"user callbacks do not mutate the slices they are applied to"}, commonTrusted...),
 		Run:     runC03,
 		Relies: []Dep{
@@ -102,6 +102,7 @@ func runC03(c *core.Ctx) {
 	c.Rule("R6", "window helpers: on every path, Drop/DropLast/Take/TakeLast return exactly the window of the input their definition prescribes for the count region the path lies in (count >= len; 1 <= count < len; for Drop/DropLast also count <= 0)", 4)
 	c.Rule("R7", "Merge gives the second map precedence: its entries are written into the result unconditionally (not 'only if absent') and never before an entry of the first map on the same path", 2)
 	c.Rule("R8", "no in-band zero sentinel: a loop-carried 'previous element' variable that still holds the zero value it was declared with is not compared with an input element unguarded (the zero value of T is a legitimate element)", 1)
+	c.Rule("R9", "helpers that build their result (every listed helper except the documented views Drop/DropLast/DropWhile/Take/TakeLast/Tail and the pass-through cases listed in c03views) return storage that is not shared with an argument on any path: a caller writing into or sorting the result cannot change an input", 10)
 	c.Rule("R5", "an input map is never read with a plain index expression for a key that may be absent (missing key ≠ stored zero value)", 1)
 	ei := core.ComputeEffects(p)
 	helpers := c03helpers(p)
@@ -295,6 +296,26 @@ func runC03(c *core.Ctx) {
 		for i, l := range allL {
 			key := fmt.Sprintf("%s/lookup#%d", f.Name(), i+1)
 			c.Check(!isBadL[l], "R5", key, p.InstrPos(l), "key known to be present (range key of the same map / comma-ok success)", "input map "+core.Path(l.X)+" is read with a plain index expression for a key that may be absent: a missing key is indistinguishable from a stored zero value, so maps that differ only in such entries are treated alike")
+		}
+	}
+	for _, f := range helpers {
+		e := ei.Of[f]
+		if e == nil {
+			continue
+		}
+		for k := 0; k < f.Signature.Results().Len() && k < len(e.Ret); k++ {
+			switch f.Signature.Results().At(k).Type().Underlying().(type) {
+			case *types.Slice, *types.Map:
+			default:
+				continue
+			}
+			key := fmt.Sprintf("%s/result#%d", f.Name(), k)
+			shared := e.Ret[k].Params() | e.Ret[k]&(core.LocGlobal|core.LocUnknown)
+			if why, isView := c03views[f.Name()]; isView {
+				c.Pass("R9", key, p.Pos(f.Pos()), "documented view / pass-through: "+why)
+				continue
+			}
+			c.Check(shared == 0, "R9", key, p.Pos(f.Pos()), "result storage "+e.Ret[k].Describe(f), "the result may share storage with "+shared.Describe(f)+" on some path (result storage "+e.Ret[k].Describe(f)+"): the helper builds a new list, so a caller that writes into or sorts the result would change the input")
 		}
 	}
 	nSent := 0
@@ -567,6 +588,15 @@ func lookupGood(m1, m2 map[int]int) bool {
 	return true
 }
 `
+
+// c03views: helpers whose result is, by definition, a window of (or the very) input - confirmed by reading on the pinned tree.
+var c03views = map[string]string{
+	"Drop":     "returns the window list[count:] of its input (decided by R6)",
+	"DropLast": "returns the window list[:len-count] of its input (decided by R6)",
+	"Take":     "returns the window list[:count] of its input (decided by R6)",
+	"TakeLast": "returns the window list[len-count:] of its input (decided by R6)",
+	"Tail":     "returns the window list[1:] of its input",
+}
 
 // c03zeroSentinels finds the equality comparisons of f between an input element and a loop-carried variable (phi) that
 // mixes the zero value of its type with input elements (`var last T; for _, v := range list { if v == last … last = v }`),
